@@ -59,20 +59,319 @@ theorem accepted_transfer (s s' : State) (sender rcpt d m n)
     (h : step s (.transfer sender rcpt d m n) = .ok s') :
     acceptedOk s (.transfer sender rcpt d m n) s' = true := by
   obtain ⟨hle, hne, heq, hoth, hsup, hden, hmts⟩ := transfer_exact s s' sender rcpt d m n h
-  unfold acceptedOk
-  simp only [Bool.and_eq_true, decide_eq_true_eq]
-  refine ⟨⟨⟨⟨⟨⟨hle, ?_⟩, ?_⟩, ?_⟩, ?_⟩, ?_⟩, ?_⟩
-  · by_cases hsr : sender = rcpt
-    · simp [hsr]
-      exact heq hsr ▸ (by rw [← hsr])
-    · simp only [hsr, if_false, Bool.and_eq_true, decide_eq_true_eq]
-      exact hne hsr
-  · apply balsSame_of
+  have h1 : balsSameExcept s s' [(sender, d, m), (rcpt, d, m)] = true := by
+    apply balsSame_of
     intro k hk
-    simp only [List.mem_cons, List.mem_nil_iff, or_false, not_or] at hk
+    simp only [List.mem_cons, List.not_mem_nil, or_false, not_or] at hk
     exact hoth k.1 k.2.1 k.2.2 hk.1 hk.2
-  · exact supSame_of _ _ _ (fun k _ => by unfold supplyOf; rw [hsup])
-  · exact mtsSame_of _ _ _ (fun k _ => by rw [hmts])
-  · exact denomsSame_of _ _ _ (fun k _ => by rw [hden])
+  have h2 : supSameExcept s s' [] = true := supSame_of _ _ _ (fun k _ => by unfold supplyOf; rw [hsup])
+  have h3 : mtsSameExcept s s' [] = true := mtsSame_of _ _ _ (fun k _ => by rw [hmts])
+  have h4 : denomsSameExcept s s' [] = true := denomsSame_of _ _ _ (fun k _ => by rw [hden])
+  unfold acceptedOk
+  simp only [h1, h2, h3, h4, Bool.and_true, Bool.and_eq_true, decide_eq_true_eq]
+  refine ⟨hle, ?_⟩
+  by_cases hsr : sender = rcpt
+  · subst hsr
+    simp [heq rfl]
+  · simp only [hsr, if_false, Bool.and_eq_true, decide_eq_true_eq]
+    exact hne hsr
+
+theorem accepted_burn (s s' : State) (sender d m n) (hs : Inv s)
+    (h : step s (.burn sender d m n) = .ok s') :
+    acceptedOk s (.burn sender d m n) s' = true := by
+  obtain ⟨hb, hsup, hoth, hsoth, hden, hmts⟩ := burn_exact s s' sender d m n hs h
+  have h1 : balsSameExcept s s' [(sender, d, m)] = true := by
+    apply balsSame_of
+    intro k hk
+    simp only [List.mem_cons, List.not_mem_nil, or_false] at hk
+    exact hoth k.1 k.2.1 k.2.2 hk
+  have h2 : supSameExcept s s' [(d, m)] = true := by
+    apply supSame_of
+    intro k hk
+    simp only [List.mem_cons, List.not_mem_nil, or_false] at hk
+    exact hsoth k.1 k.2 hk
+  have h3 : mtsSameExcept s s' [] = true := mtsSame_of _ _ _ (fun k _ => by rw [hmts])
+  have h4 : denomsSameExcept s s' [] = true := denomsSame_of _ _ _ (fun k _ => by rw [hden])
+  unfold acceptedOk
+  simp only [h1, h2, h3, h4, Bool.and_true, Bool.and_eq_true, decide_eq_true_eq]
+  exact ⟨hb, hsup⟩
+
+theorem accepted_edit (s s' : State) (sender d id data)
+    (h : step s (.edit sender d id data) = .ok s') :
+    acceptedOk s (.edit sender d id data) s' = true := by
+  have hown := edit_only_owner s s' sender d id data h
+  simp only [step, stepEdit] at h
+  split at h; · cases h
+  split at h; · cases h
+  split at h; · cases h
+  split at h; · cases h
+  rename_i hc
+  have hcont : AMap.contains s.mts (d, id) = true := by simpa using hc
+  have key : s'.bal = s.bal ∧ s'.supply = s.supply ∧ s'.denoms = s.denoms ∧
+      (∀ k, k ≠ (d, id) → AMap.get? s'.mts k = AMap.get? s.mts k) := by
+    split at h
+    · cases h
+      exact ⟨rfl, rfl, rfl, fun k hk => AMap.get?_set_other _ _ _ _ (Ne.symm hk)⟩
+    · cases h
+      exact ⟨rfl, rfl, rfl, fun _ _ => rfl⟩
+  obtain ⟨hb, hsup, hden, hm⟩ := key
+  have h1 : balsSameExcept s s' [] = true := balsSame_of _ _ _ (fun k _ => by unfold balOf; rw [hb])
+  have h2 : supSameExcept s s' [] = true := supSame_of _ _ _ (fun k _ => by unfold supplyOf; rw [hsup])
+  have h3 : mtsSameExcept s s' [(d, id)] = true := by
+    apply mtsSame_of
+    intro k hk
+    simp only [List.mem_cons, List.not_mem_nil, or_false] at hk
+    exact hm k hk
+  have h4 : denomsSameExcept s s' [] = true := denomsSame_of _ _ _ (fun k _ => by rw [hden])
+  unfold acceptedOk
+  simp [h1, h2, h3, h4, hown, hcont]
+
+theorem accepted_transferDenom (s s' : State) (sender rcpt id)
+    (h : step s (.transferDenom sender rcpt id) = .ok s') :
+    acceptedOk s (.transferDenom sender rcpt id) s' = true := by
+  obtain ⟨hown, hown'⟩ := transferDenom_only_owner s s' sender rcpt id h
+  simp only [step, stepTransferDenom] at h
+  split at h; · cases h
+  split at h; · cases h
+  split at h
+  · cases h
+  · rename_i r hr
+    cases h
+    have h1 : balsSameExcept s { s with denoms := AMap.set s.denoms id { r with owner := rcpt } } [] = true :=
+      balsSame_of _ _ _ (fun k _ => rfl)
+    have h2 : supSameExcept s { s with denoms := AMap.set s.denoms id { r with owner := rcpt } } [] = true :=
+      supSame_of _ _ _ (fun k _ => rfl)
+    have h3 : mtsSameExcept s { s with denoms := AMap.set s.denoms id { r with owner := rcpt } } [] = true :=
+      mtsSame_of _ _ _ (fun k _ => rfl)
+    have h4 : denomsSameExcept s { s with denoms := AMap.set s.denoms id { r with owner := rcpt } } [id] = true := by
+      apply denomsSame_of
+      intro k hk
+      simp only [List.mem_cons, List.not_mem_nil, or_false] at hk
+      exact AMap.get?_set_other _ _ _ _ (Ne.symm hk)
+    unfold acceptedOk
+    simp only [h1, h2, h3, h4, hown, hown', Bool.and_true, beq_self_eq_true, Bool.true_and]
+    simp [AMap.get?_set_self, hr]
+
+/-! ### list facts about `AMap.set` on a fresh key -/
+
+theorem get?_ne_none_of_mem_keys {K V : Type} [DecidableEq K] (m : AMap K V) (k : K)
+    (h : k ∈ m.map (·.1)) : AMap.get? m k ≠ none := by
+  induction m with
+  | nil => simp at h
+  | cons hd t ih =>
+    obtain ⟨k', v'⟩ := hd
+    by_cases hk : k' = k
+    · simp [AMap.get?, hk]
+    · simp only [List.map_cons, List.mem_cons] at h
+      rcases h with h | h
+      · exact absurd h.symm hk
+      · simp only [AMap.get?, hk, if_false]; exact ih h
+
+theorem contains_of_mem_keys {K V : Type} [DecidableEq K] (m : AMap K V) (k : K)
+    (h : k ∈ m.map (·.1)) : AMap.contains m k = true := by
+  unfold AMap.contains
+  cases hg : AMap.get? m k with
+  | none => exact absurd hg (get?_ne_none_of_mem_keys m k h)
+  | some _ => rfl
+
+theorem set_fresh {K V : Type} [DecidableEq K] (m : AMap K V) (k : K) (v : V)
+    (h : AMap.get? m k = none) : AMap.set m k v = m ++ [(k, v)] := by
+  induction m with
+  | nil => rfl
+  | cons hd t ih =>
+    obtain ⟨k', v'⟩ := hd
+    by_cases hk : k' = k
+    · simp [AMap.get?, hk] at h
+    · simp only [AMap.get?, hk, if_false] at h
+      simp [AMap.set, hk, ih h]
+
+/-- the keys of `set m k v` that are not bound in `m` are exactly `[k]` when `k` was fresh -/
+theorem new_keys_of_fresh {K V : Type} [DecidableEq K] (m : AMap K V) (k : K) (v : V)
+    (h : AMap.get? m k = none) :
+    ((AMap.set m k v).map (·.1)).filter (fun x => !(AMap.contains m x)) = [k] := by
+  rw [set_fresh m k v h, List.map_append, List.filter_append]
+  have h1 : (m.map (·.1)).filter (fun x => !(AMap.contains m x)) = [] := by
+    rw [List.filter_eq_nil_iff]
+    intro x hx
+    simp [contains_of_mem_keys m x hx]
+  have h2 : AMap.contains m k = false := by simp [AMap.contains, h]
+  simp [h1, h2]
+
+theorem accepted_issueDenom (s s' : State) (sender name data)
+    (hfresh : AMap.get? s.denoms (genId "mt-denom-" s.denomSeq) = none)
+    (h : step s (.issueDenom sender name data) = .ok s') :
+    acceptedOk s (.issueDenom sender name data) s' = true := by
+  simp only [step, stepIssueDenom] at h
+  split at h
+  · cases h
+  · cases h
+    generalize genId "mt-denom-" s.denomSeq = id at hfresh ⊢
+    have h1 : balsSameExcept s { s with denomSeq := s.denomSeq + 1, denoms := AMap.set s.denoms id ⟨name, sender, data⟩ } [] = true :=
+      balsSame_of _ _ _ (fun k _ => rfl)
+    have h2 : supSameExcept s { s with denomSeq := s.denomSeq + 1, denoms := AMap.set s.denoms id ⟨name, sender, data⟩ } [] = true :=
+      supSame_of _ _ _ (fun k _ => rfl)
+    have h3 : mtsSameExcept s { s with denomSeq := s.denomSeq + 1, denoms := AMap.set s.denoms id ⟨name, sender, data⟩ } [] = true :=
+      mtsSame_of _ _ _ (fun k _ => rfl)
+    have h4 : denomsSameExcept s { s with denomSeq := s.denomSeq + 1, denoms := AMap.set s.denoms id ⟨name, sender, data⟩ } [id] = true := by
+      apply denomsSame_of
+      intro k hk
+      simp only [List.mem_cons, List.not_mem_nil, or_false] at hk
+      exact AMap.get?_set_other _ _ _ _ (Ne.symm hk)
+    unfold acceptedOk
+    simp only [new_keys_of_fresh s.denoms id _ hfresh, h1, h2, h3, h4, Bool.and_true]
+    simp [ownerOf, AMap.get?_set_self]
+
+/-- effect of `increaseSupply` then `addBalance` on one token, as the monitor reads it -/
+theorem incr_add_facts {s s1 s2 : State} {d m a n}
+    (h1 : increaseSupply s d m n = .ok s1) (h2 : addBalance s1 a d m n = .ok s2) :
+    (supplyOf s2 d m).toNat = (supplyOf s d m).toNat + n.toNat ∧
+    (balOf s2 a d m).toNat = (balOf s a d m).toNat + n.toNat ∧
+    (∀ k : Addr × DenomId × MtId, k ≠ (a, d, m) → balOf s2 k.1 k.2.1 k.2.2 = balOf s k.1 k.2.1 k.2.2) ∧
+    (∀ k : DenomId × MtId, k ≠ (d, m) → supplyOf s2 k.1 k.2 = supplyOf s k.1 k.2) ∧
+    s2.mts = s.mts ∧ s2.denoms = s.denoms := by
+  obtain ⟨hg1, rfl⟩ := increaseSupply_ok h1
+  obtain ⟨hg2, rfl⟩ := addBalance_ok h2
+  refine ⟨?_, ?_, ?_, ?_, rfl, rfl⟩
+  · show (supplyOf { s with supply := AMap.set s.supply (d, m) (supplyOf s d m + n) } d m).toNat = _
+    rw [supplyOf_set_self, add_noWrap _ _ hg1]
+  · rw [balOf_set_self]
+    exact add_noWrap _ _ hg2
+  · intro k hk
+    exact balOf_set_other _ _ _ _ _ _ _ _ (Ne.symm hk)
+  · intro k hk
+    show supplyOf { s with supply := AMap.set s.supply (d, m) (supplyOf s d m + n) } k.1 k.2 = _
+    exact supplyOf_set_other _ _ _ _ _ _ (Ne.symm hk)
+
+theorem accepted_mint_existing (s s' : State) (sender d id recipient n data) (hid : id ≠ "")
+    (h : step s (.mint sender d id recipient n data) = .ok s') :
+    acceptedOk s (.mint sender d id recipient n data) s' = true := by
+  have hown := mint_only_owner s s' sender d id recipient n data h
+  simp only [step, stepMint] at h
+  unfold acceptedOk
+  simp only []
+  generalize (if recipient = "" then sender else recipient) = rc at h ⊢
+  split at h; · cases h
+  split at h; · cases h
+  split at h; · cases h
+  split at h; · cases h
+  unfold mintExisting at h
+  split at h; · cases h
+  rename_i hc
+  have hcont : AMap.contains s.mts (d, id) = true := by simpa using hc
+  split at h; · cases h
+  rename_i s1 hinc
+  obtain ⟨f1, f2, f3, f4, f5, f6⟩ := incr_add_facts hinc h
+  have h1 : balsSameExcept s s' [(rc, d, id)] = true := by
+    apply balsSame_of
+    intro k hk
+    simp only [List.mem_cons, List.not_mem_nil, or_false] at hk
+    exact f3 k hk
+  have h2 : supSameExcept s s' [(d, id)] = true := by
+    apply supSame_of
+    intro k hk
+    simp only [List.mem_cons, List.not_mem_nil, or_false] at hk
+    exact f4 k hk
+  have h3 : mtsSameExcept s s' [] = true := mtsSame_of _ _ _ (fun k _ => by rw [f5])
+  have h4 : denomsSameExcept s s' [] = true := denomsSame_of _ _ _ (fun k _ => by rw [f6])
+  simp only [hown, hid, ne_eq, not_false_eq_true, if_true, hcont, h1, h2, h3, h4, Bool.and_true,
+    beq_self_eq_true, Bool.true_and, Bool.and_eq_true, decide_eq_true_eq]
+  exact ⟨f1, f2⟩
+
+/-- freshness of the generated token id: it is not yet used by any table (holds unless SHA-256
+    collides on two counter strings or the 64-bit counter wraps) -/
+structure FreshMt (s : State) (d : DenomId) (nid : MtId) : Prop where
+  mts : AMap.get? s.mts (d, nid) = none
+  sup : AMap.get? s.supply (d, nid) = none
+  bal : ∀ a, AMap.get? s.bal (a, d, nid) = none
+
+theorem accepted_mint_new (s s' : State) (sender d recipient n data)
+    (hf : FreshMt s d (genId "mt-" s.mtSeq))
+    (h : step s (.mint sender d "" recipient n data) = .ok s') :
+    acceptedOk s (.mint sender d "" recipient n data) s' = true := by
+  have hown := mint_only_owner s s' sender d "" recipient n data h
+  simp only [step, stepMint] at h
+  unfold acceptedOk
+  simp only []
+  generalize (if recipient = "" then sender else recipient) = rc at h ⊢
+  generalize genId "mt-" s.mtSeq = nid at hf h
+  split at h; · cases h
+  split at h; · cases h
+  split at h; · cases h
+  split at h; · cases h
+  simp only [ne_eq, not_true_eq_false, if_false] at h
+  unfold mintNew at h
+  split at h; · cases h
+  rename_i s1 hinc
+  obtain ⟨f1, f2, f3, f4, f5, f6⟩ := incr_add_facts hinc h
+  -- the state before the two ledger updates only differs from `s` in mts / mtSeq / denomSupply
+  have hsup0 : (supplyOf (withNewToken s d nid data) d nid).toNat = 0 := by
+    simp [withNewToken, supplyOf, AMap.getD, hf.sup]
+  have hbal0 : (balOf (withNewToken s d nid data) rc d nid).toNat = 0 := by
+    simp [withNewToken, balOf, AMap.getD, hf.bal rc]
+  have hnew : (s'.mts.map (·.1)).filter (fun k => !(AMap.contains s.mts k)) = [(d, nid)] := by
+    rw [f5]
+    exact new_keys_of_fresh s.mts (d, nid) data hf.mts
+  have hnotbal : ((s.bal.map (fun e => (e.1.2.1, e.1.2.2))).contains (d, nid)) = false := by
+    rw [Bool.eq_false_iff]
+    intro hc
+    rw [List.contains_iff_mem, List.mem_map] at hc
+    obtain ⟨e, he, hek⟩ := hc
+    have : e.1 ∈ s.bal.map (·.1) := List.mem_map.mpr ⟨e, he, rfl⟩
+    have hne := get?_ne_none_of_mem_keys s.bal e.1 this
+    have hkey : e.1 = (e.1.1, d, nid) := by
+      cases hx : e.1 with
+      | mk a rest =>
+        cases rest with
+        | mk d' m' =>
+          rw [hx] at hek
+          simp only [Prod.mk.injEq] at hek
+          rw [hek.1, hek.2]
+    rw [hkey] at hne
+    exact hne (hf.bal e.1.1)
+  have h1 : balsSameExcept s s' [(rc, d, nid)] = true := by
+    apply balsSame_of
+    intro k hk
+    simp only [List.mem_cons, List.not_mem_nil, or_false] at hk
+    exact f3 k hk
+  have h2 : supSameExcept s s' [(d, nid)] = true := by
+    apply supSame_of
+    intro k hk
+    simp only [List.mem_cons, List.not_mem_nil, or_false] at hk
+    exact f4 k hk
+  have h3 : mtsSameExcept s s' [(d, nid)] = true := by
+    apply mtsSame_of
+    intro k hk
+    simp only [List.mem_cons, List.not_mem_nil, or_false] at hk
+    rw [f5]
+    exact AMap.get?_set_other _ _ _ _ (Ne.symm hk)
+  have h4 : denomsSameExcept s s' [] = true := denomsSame_of _ _ _ (fun k _ => by rw [f6]; rfl)
+  have hsc : AMap.contains s.supply (d, nid) = false := by simp [AMap.contains, hf.sup]
+  simp only [hown, ne_eq, not_true_eq_false, if_false, hnew, h1, h2, h3, h4, hsc, hnotbal, Bool.and_true,
+    beq_self_eq_true, Bool.true_and, Bool.not_false, Bool.and_eq_true, decide_eq_true_eq]
+  constructor
+  · rw [f1, hsup0]; omega
+  · rw [f2, hbal0]; omega
+
+/-- **Monitor soundness (C15)**: on every model step from a state satisfying the invariant,
+with fresh generated ids, the monitor's step relation evaluates to `true`. -/
+theorem monitor_sound (s : State) (op : Op) (hs : Inv s)
+    (hfd : AMap.get? s.denoms (genId "mt-denom-" s.denomSeq) = none)
+    (hfm : ∀ d, FreshMt s d (genId "mt-" s.mtSeq)) :
+    stepOk s op (match step s op with | .ok _ => true | .error _ => false) (apply s op) = true := by
+  unfold stepOk apply
+  cases h : step s op with
+  | error e => simp [sameState_refl]
+  | ok s' =>
+    simp only [if_true]
+    cases op with
+    | issueDenom sender name data => exact accepted_issueDenom s s' sender name data hfd h
+    | mint sender d id recipient n data =>
+      by_cases hid : id = ""
+      · subst hid; exact accepted_mint_new s s' sender d recipient n data (hfm d) h
+      · exact accepted_mint_existing s s' sender d id recipient n data hid h
+    | edit sender d id data => exact accepted_edit s s' sender d id data h
+    | transfer sender rcpt d m n => exact accepted_transfer s s' sender rcpt d m n h
+    | burn sender d m n => exact accepted_burn s s' sender d m n hs h
+    | transferDenom sender rcpt id => exact accepted_transferDenom s s' sender rcpt id h
 
 end Irismod.Proofs.MtMonitor
